@@ -44,6 +44,10 @@ def label(i, labels="int"):
         return 100 - i
     if labels == "strempty":
         return "" if i == 1 else "m%d" % i
+    if labels == "bigint":       # equal labels are DISTINCT objects (not the interpreter's cached small integers)
+        return 10 ** 6 + int(i)
+    if labels == "tuple":
+        return ("n", int(i))
     raise ValueError(labels)
 
 
